@@ -12,8 +12,8 @@ import (
 
 // fold-equivalents (simple case folding / ToLower / ToUpper relatives) and look-alikes per ASCII letter
 var alikes = map[byte][]string{
-	's': {"ſ", "ѕ", "Ѕ"},           // LONG S (folds to s), Cyrillic dze
-	'k': {"K", "к", "Κ"},           // KELVIN SIGN (lower-cases to k), Cyrillic ka, Greek Kappa
+	's': {"ſ", "ѕ", "Ѕ"},                           // LONG S (folds to s), Cyrillic dze
+	'k': {"K", "к", "Κ"},                           // KELVIN SIGN (lower-cases to k), Cyrillic ka, Greek Kappa
 	'i': {"İ", "ı", "і", "І", "Ι", "ι", "i̇", "ⅰ"}, // İ (lower-cases to i), dotless ı, ...
 	'a': {"а", "А", "α", "Α", "å", "Å"},
 	'e': {"е", "Е", "Ε", "é"},
